@@ -23,6 +23,7 @@ type Solver struct {
 	log     io.Writer
 	// names of terms already defined, with the scope depth they were defined at
 	defined  map[int64]int
+	sided    map[int64]int
 	declared map[string]int
 	depth    int
 	dead     bool
@@ -53,7 +54,7 @@ func newSolver(kind string, timeout time.Duration) *Solver {
 	if err := cmd.Start(); err != nil {
 		panic(err)
 	}
-	s := &Solver{kind: kind, cmd: cmd, in: in, out: bufio.NewReaderSize(out, 1<<16), defined: map[int64]int{}, declared: map[string]int{}, timeout: timeout}
+	s := &Solver{kind: kind, cmd: cmd, in: in, out: bufio.NewReaderSize(out, 1<<16), defined: map[int64]int{}, sided: map[int64]int{}, declared: map[string]int{}, timeout: timeout}
 	if kind == "cvc5" || kind == "cvc5-int" {
 		s.send("(set-logic ALL)")
 	} else {
@@ -87,6 +88,8 @@ func (s *Solver) send(line string) {
 
 type solverDied struct{ msg string }
 
+var slowLog = os.Getenv("VERIF_SLOWLOG") != ""
+
 func (s *Solver) ask(line string) string {
 	t0 := time.Now()
 	s.send(line)
@@ -104,7 +107,11 @@ func (s *Solver) ask(line string) string {
 		sb.WriteString(l)
 	}
 	s.queries++
-	s.dur += time.Since(t0)
+	d := time.Since(t0)
+	s.dur += d
+	if slowLog && d > 500*time.Millisecond {
+		fmt.Fprintf(os.Stderr, "SLOW %s %.1fs depth=%d reply=%s query=%s\n", s.kind, d.Seconds(), s.depth, trunc(strings.TrimSpace(sb.String()), 30), trunc(line, 60))
+	}
 	return strings.TrimSpace(sb.String())
 }
 
@@ -128,6 +135,11 @@ func (s *Solver) pop() {
 	for n, d := range s.declared {
 		if d >= s.depth {
 			delete(s.declared, n)
+		}
+	}
+	for id, d := range s.sided {
+		if d >= s.depth {
+			delete(s.sided, id)
 		}
 	}
 	s.depth--
@@ -165,7 +177,21 @@ func (s *Solver) ref(t *Term) string {
 }
 
 func (s *Solver) assert(t *Term) {
-	s.send("(assert " + s.ref(t) + ")")
+	r := s.ref(t)
+	s.emitSides(t)
+	s.send("(assert " + r + ")")
+}
+
+// emitSides asserts the defining axioms of fresh symbols occurring in t (once per scope).
+func (s *Solver) emitSides(t *Term) {
+	for _, ax := range t.side {
+		if _, ok := s.sided[ax.id]; ok {
+			continue
+		}
+		s.sided[ax.id] = s.depth
+		s.send("(assert " + s.ref(ax) + ")")
+		s.emitSides(ax)
+	}
 }
 
 // check returns "sat", "unsat" or "unknown" (anything else, including errors and timeouts, is "unknown").
@@ -200,6 +226,7 @@ func (s *Solver) getValues(ts []*Term) ([]uint64, bool) {
 	refs := make([]string, len(ts))
 	for i, t := range ts {
 		refs[i] = s.ref(t)
+		s.emitSides(t)
 	}
 	// definitions may have been emitted after check-sat: re-check to make the model current (cheap, same scope)
 	r := s.ask("(check-sat)")
